@@ -131,7 +131,12 @@ func projectValue(v reflect.Value) node {
 		case reflect.Slice:
 			under = v.Convert(reflect.SliceOf(t.Elem()))
 		case reflect.Struct:
-			under = reflect.ValueOf(v.Field(0).Float())
+			// the fields, projected as an anonymous struct
+			fs := make([]any, t.NumField())
+			for i := range fs {
+				fs[i] = node{"k": "field", "n": t.Field(i).Name, "omit": false, "c": []any{projectValue(v.Field(i))}}
+			}
+			return node{"k": "custom", "n": name, "c": []any{node{"k": "struct", "c": fs}}}
 		}
 		return node{"k": "custom", "n": name, "c": []any{projectValue(under)}}
 	}
